@@ -374,6 +374,34 @@ def run_C12(ctx, proof_ok):
                              "modify_cases": n3, **{"modify_" + k: int(v) for k, v in dist3.items()}}}
 
 
+def run_C18(ctx, proof_ok):
+    import rfc
+
+    E = epg()
+    r = lib.rng(18)
+    corpus = [decode_case(c) for c in load_corpus(ctx.prop)]
+    for c in corpus:
+        if "values" in c and isinstance(c["values"], dict):
+            c["values"] = np.asarray(c["values"]["re"]) + 1j * np.asarray(c["values"]["im"])
+    cases = [c for c in corpus if "values" in c] + [rfc.gen_case(r) for _ in range(budget(ctx.tier, 250, 5000))]
+    n1, d1 = rfc.compare(cases, E)
+    n2, d2, dist2 = rfc.search_product(r, E, budget(ctx.tier, 200, 4000))
+    n3, d3 = rfc.search_encode(r, E, budget(ctx.tier, 80, 1500))
+    n4, d4 = rfc.search_estimate(r, E, budget(ctx.tier, 200, 4000))
+    ctx.violations.extend(d1 + d2 + d3 + d4)
+    kinds = collections.Counter(c["kind"] for c in cases if "kind" in c)
+    return {"evaluations": n1 + n2 + n3 + n4, "distinct_nontrivial": sum(1 for c in cases if len(c["values"]) > 2) + n2 + n3 + n4,
+            "rule": "random waveforms (sinc, random amplitude+phase, constant phase with sign changes, chirp, hard; 1-25 samples, zeros "
+                    "and |v|=1 included), scalar or per-sample durations, phi None/0/value, T1/T2/g subsets: RFPulse(values, duration, "
+                    "rf=...)(state) and its duration vs Lean Model/RF run by the driver; batch search: rf/T2/g arrays vs the hand-built "
+                    "ordered product with offset applied to the samples, through direct application and simulate(); encode_phase vs "
+                    "hard pulses interleaved with P(dur_i, frequency map) (+ rewind); constant-phase waveforms: estimate_rf / "
+                    "estimate_alpha round trips and pulse == T(alpha, phase of the summed samples)",
+            "samples": [lib.jsonable({k: v for k, v in cases[-1].items() if k != "init"})],
+            "distribution": {"model_cases": n1, "waveform_kinds": dict(kinds), "product_cases": n2,
+                             **{"product_" + k: int(v) for k, v in dist2.items()}, "encode_cases": n3, "estimate_cases": n4}}
+
+
 def merge_results(a, b, rule):
     out = dict(a)
     out["evaluations"] = a["evaluations"] + b["evaluations"]
@@ -738,6 +766,19 @@ PROPS["C12"] = {
     "partial": ["proved for the list-level simulate/get_adc_times/modify model over arbitrary operators, with the concrete default_modifier "
                 "shown to be that abstract modify; Adc acquire/post are modelled for one simulation (batch (1,)) and tied by execution; "
                 "array weights/phases/durations, reduce axes and modify(expand=) placement are decided by the defining-formula search only"],
+}
+
+PROPS["C18"] = {
+    "lean_modules": ["EpgVerif.Props.C18"],
+    "tie": [],
+    "audit": "EpgVerif/Audit/C18.lean",
+    "run": run_C18,
+    "replay": replay_generic,
+    "theorems_hint": ["pulse_is_ordered_product", "rfpulse_offset", "constant_phase_pulse", "estimate_roundtrip", "modify_duration"],
+    "partial": ["proved for one simulation (scalar rf/T1/T2/g) with samples in polar form as numpy's abs/angle deliver them; "
+                "estimate_alpha's mod-wrapping and estimate_rf's scipy branch are outside the model (the constant-phase closed form is "
+                "proved); batch parameters, encode_phase's frequency map and the estimate functions themselves are decided by the "
+                "searches on the real code"],
 }
 
 NOT_CLAIMED = {}
